@@ -530,6 +530,9 @@ package main
 //@   nopanic
 //@   safe
 //@   assert at call store.TopicsPersistenceInterface.Delete#1 [C03] paused_before_delete: topicBlocked(t)
+// (a deletion that the store refuses leaves the topic running: it is not left paused - a paused topic answers 503 to
+// every subscribe and leave and ignores terminating sessions for good)
+//@   assert at call ErrUnknownReply#1 [C14] refused_delete_unpauses: (t.status & topicStatusPaused) == 0
 //@   assert at call store.TopicsPersistenceInterface.Delete#1 [C06] online_owner_only: (asUid != types.ZeroUid && t.owner == asUid && asUid == types.ParseUserId(msg.AsUser)) || t.cat == types.TopicCatP2P
 //@   assert at call store.TopicsPersistenceInterface.Delete#2 [C06] offline_empty_p2p: hasPrefix(topic, "p2p") && len(subs) == 0
 //@   assert at call store.TopicsPersistenceInterface.Delete#4 [C06] offline_last_p2p: tcat == types.TopicCatP2P && len(subs) < 2
@@ -857,7 +860,7 @@ package main
 //@ func (t *Topic) handleLeaveRequest(msg *ClientComMessage, sess *Session)
 //@   requires [C14] t != nil && msg != nil && sess != nil && (msg.init ==> msg.Leave != nil)
 //@   modifies *
-//@   ensures [C10] online_follows_attachment: old(sess.multi == nil && sess.proto != PROXY && !sess.background && (sess in t.sessions) && !(msg.init && msg.Leave.Unsub) && t.sessions[sess].uid != types.ZeroUid && (t.sessions[sess].uid in t.perUser)) && !(sess in old(t.sessions)) && (old(t.sessions[sess].uid) in t.perUser) ==> t.perUser[old(t.sessions[sess].uid)].online == old(t.perUser[t.sessions[sess].uid].online) - 1
+//@   ensures [C10,C14] online_follows_attachment: old(sess.multi == nil && sess.proto != PROXY && !sess.background && (sess in t.sessions) && !(msg.init && msg.Leave.Unsub) && t.sessions[sess].uid != types.ZeroUid && (t.sessions[sess].uid in t.perUser)) && !(sess in old(t.sessions)) && (old(t.sessions[sess].uid) in t.perUser) ==> t.perUser[old(t.sessions[sess].uid)].online == old(t.perUser[t.sessions[sess].uid].online) - 1
 //@   ensures [C14] both_sides_agree: old(sess.multi == nil && sess.proto != PROXY && (sess in t.sessions) && !(msg.init && msg.Leave.Unsub)) && !(sess in old(t.sessions)) ==> !(old(t.name) in sess.subs)
 // countSub takes no lock itself: its callers must hold one.
 //@ func (s *Session) countSub() (n int)
@@ -1179,3 +1182,15 @@ package main
 //@   requires [C10,assumed] t != nil && t.killTimer != nil
 //@   modifies inferred
 //@   ensures [C10] idle_topic_counts_down: len(t.sessions) == 0 && t.cat != types.TopicCatSys ==> called("Reset") == old(called("Reset")) + 1
+
+// The status word of a topic: the compare-and-swap loop is modelled sequentially (the CAS succeeds because nobody
+// interferes between the load and the swap; what other goroutines do to the word is outside this contract). The
+// helper is inlined into its callers, where the bits are constants.
+//@ func (t *Topic) statusChangeBits(bits int32, set bool)
+//@   inline
+//@   loop 1 unroll 2
+//@ func (t *Topic) markPaused(pause bool)
+//@   requires t != nil
+//@   modifies t.status
+//@   ensures [C03,C14] paused_iff_asked: ((t.status & topicStatusPaused) != 0) == pause
+//@   ensures [C03,C14] other_bits_kept: (t.status & topicStatusMarkedDeleted) == (old(t.status) & topicStatusMarkedDeleted) && (t.status & topicStatusReadOnly) == (old(t.status) & topicStatusReadOnly) && (t.status & topicStatusLoaded) == (old(t.status) & topicStatusLoaded)
